@@ -1,11 +1,7 @@
 package database
 
-// Registry lists the harness entry points of this package for native replay.
+// Registry lists the harness entry points of this package for native replay (c17internals.go adds its own).
 var Registry = map[string]func([]int64){
-	"HarnessRoundTrip":   func(a []int64) { HarnessRoundTrip(int(a[0])) },
-	"HarnessBatches":     func(a []int64) { HarnessBatches(int(a[0])) },
-	"HarnessRealBatches": func(a []int64) { HarnessRealBatches(int(a[0]), int(a[1])) },
-	"HarnessInitRestart": func(a []int64) { HarnessInitRestart(int(a[0])) },
-	"HarnessRestart":     func(a []int64) { HarnessRestart(int(a[0])) },
-	"HarnessSecondStart": func(a []int64) { HarnessSecondStart(int(a[0])) },
+	"HarnessFileRoundTrip": func(a []int64) { HarnessFileRoundTrip(int(a[0])) },
+	"HarnessInitRestart":   func(a []int64) { HarnessInitRestart(int(a[0])) },
 }
